@@ -101,18 +101,20 @@ class NegativeFluentRemover(IdentityDagWalker):
                     temp = right
                     right = left
                     left = temp
+                # each side ranges over the objects of its own type: the two types can differ
+                # (one is a subtype of the other) and a constant denotes only itself
                 if left.is_constant():
                     left_list = [left.constant_value()]
                 else:
-                    left_list = list(self._problem.objects(type_here))
-                right_list = list(self._problem.objects(type_here))
+                    left_list = list(self._problem.objects(left.type))
+                right_list = list(self._problem.objects(right.type))
                 # if there are no objects of the usertype we cannot compile this
                 if (len(left_list) <= 0) or (len(right_list) <= 0):
                     raise UPUsageError(
                         f"No objects present for the usertype {type_here}"
                     )
-                if len(left_list) == 1 and len(right_list) == 1:
-                    # there is only one object in the problem, the values will always be equal
+                if len(left_list) == 1 and left_list == right_list:
+                    # both sides can only be the same, single object: the values will always be equal
                     return self._env.expression_manager.FALSE()
                 exps = []
                 for left_obj in left_list:
